@@ -50,7 +50,8 @@ ASSUMPTIONS = ['supported size family = pv/families.py']
 REQUIRED_COUNTERS = ['deformed_objects', 'rows_relabelled_and_compared',
                      'error_images_compared', 'noise_tables_compared',
                      'joint_laws_compared', 'histories_checked',
-                     'history_steps', 'permutation_queries']
+                     'history_steps', 'permutation_queries',
+                     'same_object_axis_queries']
 
 LET2BITS = {'I': (0, 0), 'X': (1, 0), 'Y': (1, 1), 'Z': (0, 1)}
 BITS2LET = {v: k for k, v in LET2BITS.items()}
@@ -218,6 +219,42 @@ def check_deformation(out, cls, size, name, kwargs, rng, tier):
     out.case(desc, nontrivial=changed > 0,
              sample=dict(desc, n=n, rows_changed=changed, ok=ok))
     return perm
+
+
+def check_noise_same_object(out, cls, size):
+    """ONE code object, one rate, noise models that differ only in the
+    deformation axis (and an undeformed one), queried in both orders."""
+    from panqec.error_models import PauliErrorModel
+    defs = fam.deformations(cls)
+    if len(defs) < 3:
+        return
+    direction, p = (0.5, 0.3, 0.2), 0.2
+    for order in (defs, defs[::-1]):
+        code = fam.build(cls, size)
+        n = code.n
+        plain = np.stack(PauliErrorModel(*direction).probability_distribution(
+            fam.build(cls, size), p), axis=1)
+        col = {'I': 0, 'X': 1, 'Y': 2, 'Z': 3}
+        for name, kw in order:
+            em = PauliErrorModel(*direction, deformation_name=name,
+                                 deformation_kwargs=dict(kw) if kw else None)
+            T = np.stack(em.probability_distribution(code, p), axis=1)
+            perm = ref_permutation(code, cls, name, kw)
+            out.count('noise_tables_compared')
+            out.count('same_object_axis_queries')
+            for i in range(n):
+                if any(abs(T[i, col[sig]] - plain[i, col[perm[i][sig]]])
+                       > 1e-15 for sig in 'XYZ'):
+                    out.violation(
+                        f'{cls}/{name}/noise-permutation/same-code-object',
+                        f'model {name} {kw} queried after other axes on the '
+                        f'same code object: qubit {i} gets {T[i].tolist()}',
+                        {'cls': cls, 'size': list(size), 'deformation': name,
+                         'kwargs': kw,
+                         'order': [[a, b] for a, b in order]})
+                    break
+    out.case({'cls': cls, 'size': list(size), 'k': 'noise-same-object'},
+             True)
 
 
 def joint_law(code, tables):
@@ -397,6 +434,7 @@ def run_task(task, out):
     cls, size = task['cls'], tuple(task['size'])
     rng = np.random.default_rng([task['seed'], 808, len(cls), sum(size)])
     if task['kind'] == 'obj':
+        check_noise_same_object(out, cls, size)
         for name, kw in fam.deformations(cls):
             if name is None:
                 continue
